@@ -248,7 +248,7 @@ class WebSocketFrame(object):
         hdr = []
 
         if self.payload_length > 125:
-            if self.payload_length < 0XFFFF:
+            if self.payload_length <= 0XFFFF:
                 hdr.append(struct.pack("!H", self.payload_length))
             else:
                 hdr.append(struct.pack("!Q", self.payload_length))
